@@ -1064,3 +1064,142 @@ func ruleAppendShortcut(c *Ctx, r *Report) {
 	}
 	r.analysed(rule, fname(fn))
 }
+
+// ---------------------------------------------------------------------------
+// R-PIARG-CHECKED (C20, C05; added after seed C20i): piArg is the library's test for "is this a callable term, and
+// which predicate does it name". Its error result says the term is not callable; "a non-callable clause" fails a
+// load. Every call of piArg has its error result examined (the extracted error has a use).
+var piArgDispatchOnly = map[string]string{
+	"(*engine.VM).directive/piArg#1": "the indicator only selects the case of a directive the loader handles itself; a directive that is not callable matches none and is handed to Call, which raises type_error(callable, _)",
+}
+
+func rulePiArgChecked(c *Ctx, r *Report) {
+	const rule = "R-PIARG-CHECKED"
+	desc := "the error of the callable-term test is never thrown away"
+	pa := c.fn("piArg")
+	if pa == nil {
+		r.undecided(rule, "anchor:piArg", "-", desc, "not found")
+		return
+	}
+	errIdx := pa.Signature.Results().Len() - 1
+	n := 0
+	for _, fn := range c.LibFuncs() {
+		k := 0
+		eachInstr(fn, func(in ssa.Instruction) {
+			call, ok := in.(*ssa.Call)
+			if !ok || call.Call.StaticCallee() != pa {
+				return
+			}
+			n++
+			k++
+			key := fmt.Sprintf("%s/piArg#%d", fname(fn), k)
+			used := false
+			for _, ref := range *call.Referrers() {
+				if e, ok := ref.(*ssa.Extract); ok && e.Index == errIdx && len(*e.Referrers()) > 0 {
+					used = true
+				}
+			}
+			if why, ok := piArgDispatchOnly[stripOrdinals(key)]; ok && !used {
+				r.ok(rule, key, c.at(in), desc, "confirmed by reading: "+why, false)
+				return
+			}
+			if used {
+				r.ok(rule, key, c.at(in), desc, "the error result is used", true)
+			} else {
+				r.bad(rule, key, c.at(in), desc, "the error result is discarded: a head or goal that is not callable (1 :- foo.) goes on as the zero predicate indicator instead of failing the load or raising type_error(callable, _)")
+			}
+		})
+	}
+	if n == 0 {
+		r.undecided(rule, "scan/piArg-calls", "-", desc, "no call of piArg found")
+	}
+}
+
+// ---------------------------------------------------------------------------
+// R-SUBATOM-BOUNDS (C16; added after seed C16i): sub_atom/5 "yields each tuple of the relation": the sub-atoms of
+// an atom of N characters start at 0..N and end at 0..N - both ends INCLUSIVE (the empty sub-atom after the last
+// character is one of them). In the enumerating built-in every loop condition that compares an induction variable
+// with len(characters) is `<=` (or its mirror), never `<`: a `for i := range rs` stops one short.
+func ruleSubAtomBounds(c *Ctx, r *Report) {
+	const rule = "R-SUBATOM-BOUNDS"
+	desc := "the enumeration of sub-atoms runs both positions up to the length inclusive"
+	fn := c.registeredFn("sub_atom", 5)
+	if fn == nil {
+		r.undecided(rule, "anchor:sub_atom/5", "-", desc, "not registered")
+		return
+	}
+	n := 0
+	for _, g := range withAnon(fn) {
+		eachInstr(g, func(in ssa.Instruction) {
+			bo, ok := in.(*ssa.BinOp)
+			if !ok {
+				return
+			}
+			isLen := func(v ssa.Value) bool {
+				call, ok := v.(*ssa.Call)
+				if !ok {
+					return false
+				}
+				b, ok := call.Call.Value.(*ssa.Builtin)
+				if !ok || b.Name() != "len" {
+					return false
+				}
+				sl, ok := call.Call.Args[0].Type().Underlying().(*types.Slice)
+				if !ok {
+					return false
+				}
+				e, ok := sl.Elem().Underlying().(*types.Basic)
+				return ok && e.Kind() == types.Int32
+			}
+			_, xPhi := bo.X.(*ssa.Phi)
+			_, yPhi := bo.Y.(*ssa.Phi)
+			var inclusive bool
+			// the form go/ssa gives `for i := range rs`: (i + 1) < len(rs) - the index never reaches the length
+			if add, ok := bo.X.(*ssa.BinOp); ok && add.Op == token.ADD && isLen(bo.Y) && (bo.Op == token.LSS || bo.Op == token.LEQ) {
+				if _, isPhi := add.X.(*ssa.Phi); isPhi {
+					if k1, ok := constInt(add.Y); ok && k1 == 1 {
+						isCond := false
+						for _, ref := range *bo.Referrers() {
+							if _, ok := ref.(*ssa.If); ok {
+								isCond = true
+							}
+						}
+						if isCond {
+							n++
+							r.bad(rule, fmt.Sprintf("%s/position-loop#%d", fname(fn), n), c.at(in), desc, "a loop over the indices of the characters (range) stops below len(characters): the sub-atoms that start after the last character are never produced - sub_atom(abc, 3, 0, 0, S) fails")
+						}
+						return
+					}
+				}
+			}
+			switch {
+			case xPhi && isLen(bo.Y) && (bo.Op == token.LEQ || bo.Op == token.LSS):
+				inclusive = bo.Op == token.LEQ
+			case yPhi && isLen(bo.X) && (bo.Op == token.GEQ || bo.Op == token.GTR):
+				inclusive = bo.Op == token.GEQ
+			default:
+				return
+			}
+			// only loop conditions: the comparison decides a branch
+			isCond := false
+			for _, ref := range *bo.Referrers() {
+				if _, ok := ref.(*ssa.If); ok {
+					isCond = true
+				}
+			}
+			if !isCond {
+				return
+			}
+			n++
+			key := fmt.Sprintf("%s/position-loop#%d", fname(fn), n)
+			if inclusive {
+				r.ok(rule, key, c.at(in), desc, "the position runs up to len(characters) inclusive", true)
+			} else {
+				r.bad(rule, key, c.at(in), desc, "the position stops below len(characters): the sub-atoms that start (or end) after the last character are never produced - sub_atom(abc, 3, 0, 0, S) fails")
+			}
+		})
+	}
+	if n == 0 {
+		r.undecided(rule, fname(fn)+"/position-loops", c.Pos(fn.Pos()), desc, "no loop over character positions found")
+	}
+}
